@@ -13,6 +13,12 @@
 //!                against big-integer arithmetic
 //! `encode_outputs` / `decrypt_outputs` (resp. `decode_outputs`) inverse is checked once per case and the
 //! `encode_outputs` layout is also checked against the product layout (bias added with `add_plain_inplace`).
+//!
+//! Production-size sections (`big_cheetah`, `big_bolt`, `big_conv2d`, `big_ckks`, `big_rnsp`): the same pipelines and
+//! oracles at N = 128 .. 8192 on structured shape families that drive every block dimension the helpers' own
+//! searches choose (and every rotate-and-add depth of the slot-packing helpers) across 8, 16, 32, 64, 65, 127, 128,
+//! 129, 255, 256, 257 ...; operand fills are dense + all-(t-1) + ONE-SIDED unit families (every unit input against
+//! the dense weights, every unit weight against the dense inputs; at the boundary indices only when the tensor is large).
 
 use crate::engine::*;
 use crate::he::*;
@@ -27,7 +33,7 @@ use heathcliff::app::rns_plain::*;
 use heathcliff::{BatchEncoder, CKKSEncoder, Ciphertext, ExpandSeed, GaloisKeys, RelinKeys, SerializableWithHeContext};
 use serde::{Deserialize, Serialize};
 use std::cell::{Cell, RefCell};
-use std::collections::BTreeMap;
+use std::collections::{BTreeMap, BTreeSet};
 use std::rc::Rc;
 use std::sync::{Arc, Mutex, OnceLock};
 use std::time::Duration;
@@ -38,7 +44,9 @@ pub fn describe(rep: &Report) {
          that shape and loops over the operand fills: every pair of unit operands (E_a, E_b) when the pair count is <= the stated cap \
          (bilinearity => the whole value space up to overflow), one dense fill derived from the seed (with a dense bias added through \
          encode_outputs + add_plain_inplace), and the all-(t-1) fill; steps = pipelines compared with the reference. non-trivial = an \
-         operand or the result needs more than one ciphertext (the shape is cut into blocks).",
+         operand or the result needs more than one ciphertext (the shape is cut into blocks). The big_* sections run the same \
+         pipelines on structured shape families at N = 128 .. 8192; their fills are dense, all-(t-1) and one-sided units (every selected \
+         unit input against the dense weights, every selected unit weight against the dense inputs).",
     );
     rep.assume("u128 schoolbook matrix product / valid cross-correlation modulo t is the reference; BigU schoolbook arithmetic for the RNS-plaintext wrapper");
     rep.assume("parameter sets are chosen with >= 20 bits of noise head-room for the deepest pipeline (small t against q of 2 x 50..60 bits at the data level), so every result must be exact; a mismatch is judged, never excused by noise");
@@ -46,7 +54,9 @@ pub fn describe(rep: &Report) {
     rep.assume("convolution shapes whose kernel has more coefficients than the ring (k_h*k_w > N) admit no blocking at all and are outside the domain (skipped; the helper does not refuse them explicitly, it divides by zero later)");
     rep.assume("pack_lwe outputs travel through the full Cipher2d serializer (as in the repository's tests): output_terms() describes the un-packed layout only");
     rep.assume("CKKS: |values| <= 4, scale 2^40, bound = 4*terms*N*4*(21(2N+1)+N+2)/scale + 2^-30 (fresh-noise and rounding calculus of DESIGN.md section 5)");
-    rep.assume("large N (>= 64, the shapes of the repository's unit tests at N = 4096/8192) is not part of the exhaustive claim");
+    rep.assume("the complete shape boxes are enumerated at N <= 64; at N = 128 .. 8192 the big_* sections enumerate exactly the stated structured shape families (every axis long in turn, lengths around 64 / 128 / 256 / ... / N, every gap of the slot-packing helpers) with dense, all-(t-1) and one-sided unit fills (unit x dense on either side, not unit pairs) - nothing else at those degrees is claimed");
+    rep.assume("big_ckks: |values| <= 4, scale 2^55 on q = [60,60,55 | 60] bits, same a-priori bound formula (it is proportional to 1/scale)");
+    rep.assume("big_bolt / big_cheetah / big_conv2d publish the smallest invariant noise budget seen at the outputs of the BFV pipelines as an observation (head-room evidence for the 'every result must be exact' assumption at the large degrees)");
 }
 
 // ---------------------------------------------------------------------------------------------
@@ -64,6 +74,25 @@ fn note(s: String) {
     }
 }
 
+/// values a blocking parameter took during a section ("<section>: <what>" -> set), published as observations
+fn reach() -> &'static Mutex<BTreeMap<String, BTreeSet<usize>>> {
+    static N: OnceLock<Mutex<BTreeMap<String, BTreeSet<usize>>>> = OnceLock::new();
+    N.get_or_init(|| Mutex::new(BTreeMap::new()))
+}
+fn reached(what: String, v: usize) {
+    reach().lock().unwrap().entry(what).or_default().insert(v);
+}
+/// smallest value seen ("<section>: <what>" -> minimum), published as observations
+fn lowest() -> &'static Mutex<BTreeMap<String, usize>> {
+    static N: OnceLock<Mutex<BTreeMap<String, usize>>> = OnceLock::new();
+    N.get_or_init(|| Mutex::new(BTreeMap::new()))
+}
+fn low_mark(what: String, v: usize) {
+    let mut l = lowest().lock().unwrap();
+    let e = l.entry(what).or_insert(usize::MAX);
+    *e = (*e).min(v);
+}
+
 struct Observed {
     inner: Box<dyn AnySection>,
 }
@@ -77,6 +106,12 @@ impl AnySection for Observed {
         let n = notes().lock().unwrap();
         for (k, v) in n.iter().filter(|(k, _)| k.starts_with(&format!("{name}:"))) {
             rep.observe(format!("{k} ({v} cases)"));
+        }
+        for (k, v) in reach().lock().unwrap().iter().filter(|(k, _)| k.starts_with(&format!("{name}:"))) {
+            rep.observe(format!("{k} took the values {v:?}"));
+        }
+        for (k, v) in lowest().lock().unwrap().iter().filter(|(k, _)| k.starts_with(&format!("{name}:"))) {
+            rep.observe(format!("{k}: minimum {v}"));
         }
     }
     fn replay(&self, case: &serde_json::Value) -> Result<CaseOut, String> {
@@ -186,6 +221,107 @@ fn unit(len: usize, at: usize, v: u64) -> Vec<u64> {
     let mut x = vec![0u64; len];
     x[at] = v;
     x
+}
+
+/// A case of one of the small-size sections, run by a production-size section (`big_*`) with one-sided unit fills.
+#[derive(Serialize, Deserialize, Clone, Debug)]
+pub struct Big<C> {
+    pub c: C,
+    /// one-sided unit fills (every selected unit input against the dense weights, every selected unit weight against the
+    /// dense inputs): 0 none (dense and all-(t-1) fills only), 1 the boundary indices of every axis, 2 every index,
+    /// 3 the coarse boundary indices of every axis (0, p-1, p, p+1 for p = 64 .. 8192, len-1)
+    pub side: u8,
+}
+
+/// boundary indices of an axis of length `len`: 0, 1, 2, p-1, p, p+1 for p = 8, 16, ..., 8192, len-2, len-1
+fn bset(len: usize) -> Vec<usize> {
+    let mut v = vec![0usize, 1, 2, len.saturating_sub(2), len.saturating_sub(1)];
+    let mut p = 8usize;
+    while p <= 8192 {
+        v.extend([p - 1, p, p + 1]);
+        p *= 2;
+    }
+    v.retain(|&i| i < len);
+    v.sort();
+    v.dedup();
+    v
+}
+
+/// flat row-major indices of a tensor with the given axes: none (side 0), the product of the axes' boundary sets (1), all (2),
+/// the product of the axes' coarse boundary sets {0, p-1, p, p+1 for p = 64 .. 8192, len-1} (3)
+fn side_indices(axes: &[usize], side: u8) -> Vec<usize> {
+    let total: usize = axes.iter().product();
+    match side {
+        0 => vec![],
+        1 => {
+            let mut v = vec![0usize];
+            for &a in axes {
+                let b = bset(a);
+                v = v.iter().flat_map(|&i| b.iter().map(move |&j| i * a + j)).collect();
+            }
+            v
+        }
+        2 => (0..total).collect(),
+        _ => {
+            let mut v = vec![0usize];
+            for &a in axes {
+                let b: Vec<usize> = bset(a).into_iter().filter(|&i| i == 0 || i + 1 == a || i >= 63).collect();
+                v = v.iter().flat_map(|&i| b.iter().map(move |&j| i * a + j)).collect();
+            }
+            v
+        }
+    }
+}
+
+/// operand fill of one pipeline
+#[derive(Clone, Copy, Debug)]
+enum FD {
+    Dense,
+    Max,
+    /// unit input against unit weight
+    Pair(usize, usize),
+    /// unit input against the dense weights
+    UnitX(usize),
+    /// dense inputs against a unit weight
+    UnitW(usize),
+}
+
+fn fill_list(pairs: Option<(usize, usize)>, side: Option<(u8, &[usize], &[usize])>, dense_first: bool) -> Vec<FD> {
+    let mut u = vec![];
+    if let Some((lx, lw)) = pairs {
+        for a in 0..lx {
+            for b in 0..lw {
+                u.push(FD::Pair(a, b));
+            }
+        }
+    }
+    if let Some((side, xa, wa)) = side {
+        u.extend(side_indices(xa, side).into_iter().map(FD::UnitX));
+        u.extend(side_indices(wa, side).into_iter().map(FD::UnitW));
+    }
+    if dense_first {
+        let mut v = vec![FD::Dense, FD::Max];
+        v.extend(u);
+        v
+    } else {
+        u.extend([FD::Dense, FD::Max]);
+        u
+    }
+}
+
+/// `name: value` of the `Debug` rendering of a helper (the block sizes are private fields)
+fn debug_field(dbg: &str, name: &str) -> Option<usize> {
+    let at = dbg.find(&format!("{name}: "))? + name.len() + 2;
+    let digits: String = dbg[at..].chars().take_while(|c| c.is_ascii_digit()).collect();
+    digits.parse().ok()
+}
+
+fn ceil2(n: usize) -> usize {
+    n.max(1).next_power_of_two()
+}
+
+fn min_budget(kx: &KitX, y: &Cipher2d) -> usize {
+    y.data.iter().flat_map(|d| d.data.iter()).map(|ct| kx.kit.dec.invariant_noise_budget(ct)).min().unwrap_or(0)
 }
 
 fn matmul_ref(x: &[u64], w: &[u64], m: usize, r: usize, n: usize, t: u64) -> Vec<u64> {
@@ -314,36 +450,42 @@ struct MFill {
     bias: Option<Vec<u64>>,
 }
 
-fn cheetah_fills(c: &MCase, seed: u64) -> Vec<MFill> {
+fn cheetah_fill(c: &MCase, seed: u64, fd: FD) -> MFill {
     let (m, r, n, t) = (c.m, c.r, c.n, c.spec.t);
-    let mut v = vec![];
-    v.push(MFill { kind: "dense", x: dense(seed, 1, m * r, t), w: dense(seed, 2, r * n, t), x2: dense(seed, 3, m * r, t), w2: dense(seed, 4, r * n, t), bias: Some(dense(seed, 5, m * n, t)) });
-    v.push(MFill { kind: "max", x: vec![t - 1; m * r], w: vec![t - 1; r * n], x2: vec![t - 1; m * r], w2: vec![t - 1; r * n], bias: Some(vec![t - 1; m * n]) });
-    if c.units {
-        for a in 0..m * r {
-            for b in 0..r * n {
-                // second product (Sum): the mirrored unit pair
-                v.push(MFill { kind: "unit", x: unit(m * r, a, 1), w: unit(r * n, b, 1), x2: unit(m * r, m * r - 1 - a, t - 1), w2: unit(r * n, r * n - 1 - b, 1), bias: None });
-            }
-        }
+    let (lx, lw) = (m * r, r * n);
+    match fd {
+        FD::Dense => MFill { kind: "dense", x: dense(seed, 1, lx, t), w: dense(seed, 2, lw, t), x2: dense(seed, 3, lx, t), w2: dense(seed, 4, lw, t), bias: Some(dense(seed, 5, m * n, t)) },
+        FD::Max => MFill { kind: "max", x: vec![t - 1; lx], w: vec![t - 1; lw], x2: vec![t - 1; lx], w2: vec![t - 1; lw], bias: Some(vec![t - 1; m * n]) },
+        // second product (Sum): the mirrored unit pair
+        FD::Pair(a, b) => MFill { kind: "unit", x: unit(lx, a, 1), w: unit(lw, b, 1), x2: unit(lx, lx - 1 - a, t - 1), w2: unit(lw, lw - 1 - b, 1), bias: None },
+        // second product (Sum): the mirrored unit against the second dense operand
+        FD::UnitX(a) => MFill { kind: "unit-x", x: unit(lx, a, 1), w: dense(seed, 2, lw, t), x2: unit(lx, lx - 1 - a, t - 1), w2: dense(seed, 4, lw, t), bias: None },
+        FD::UnitW(b) => MFill { kind: "unit-w", x: dense(seed, 1, lx, t), w: unit(lw, b, 1), x2: dense(seed, 3, lx, t), w2: unit(lw, lw - 1 - b, t - 1), bias: None },
     }
-    v
 }
 
 fn check_cheetah(c: &MCase, seed: u64) -> CaseOut {
+    run_cheetah(c, "cheetah", None, h64(&serde_json::to_string(c).unwrap_or_default()), seed)
+}
+fn check_big_cheetah(b: &Big<MCase>, seed: u64) -> CaseOut {
+    run_cheetah(&b.c, "big_cheetah", Some(b.side), h64(&serde_json::to_string(b).unwrap_or_default()), seed)
+}
+
+/// `side` = None: the fills of the small-size section (unit pairs when `c.units`); Some(s): one-sided unit fills (see `Big`)
+fn run_cheetah(c: &MCase, sec: &str, side: Option<u8>, tag: u64, seed: u64) -> CaseOut {
     let sch = c.spec.scheme;
     let kx = match kitx(&c.spec, if c.pack { Keys::Auto } else { Keys::None }, seed) {
         Ok(k) => k,
         Err(e) => return CaseOut::skip(&format!("parameter set rejected: {e}")),
     };
-    env_real(seed, h64(&serde_json::to_string(c).unwrap_or_default()));
+    env_real(seed, tag);
     let valid = c.m >= 1 && c.r >= 1 && c.n >= 1 && c.spec.n >= 2;
-    let kp = format!("cheetah:{sch:?}:pack={}", c.pack as u8);
+    let kp = format!("{sec}:{sch:?}:pack={}", c.pack as u8);
     let helper = match guard(|| MatmulHelper::new(c.m, c.r, c.n, c.spec.n, c.obj.to(), c.pack)) {
         Ok(h) => h,
         Err(p) => {
             if !valid || is_explicit_refusal(&p) {
-                note(format!("cheetah: constructor refusal: {}", panic_class(&p)));
+                note(format!("{sec}: constructor refusal: {}", panic_class(&p)));
                 if valid {
                     return CaseOut::fail(format!("{kp}:new:refused-valid-shape:{}", panic_class(&p)), "shapes with all dimensions >= 1 are accepted", p);
                 }
@@ -361,8 +503,20 @@ fn check_cheetah(c: &MCase, seed: u64) -> CaseOut {
     let t = c.spec.t;
     let wire = c.transport == Transport::Wire;
     let mut tally = Tally { steps: 0, shape: 0, multi: false };
+    let big = side.is_some();
+    if big {
+        let dbg = format!("{helper:?}");
+        for f in ["batch_block", "input_block", "output_block"] {
+            if let Some(v) = debug_field(&dbg, f) {
+                reached(format!("{sec}: {f} (pack_lwe = {})", c.pack), v);
+            }
+        }
+    }
+    let (xa, wa) = ([c.m, c.r], [c.r, c.n]);
+    let fds = fill_list(if c.units { Some((c.m * c.r, c.r * c.n)) } else { None }, side.map(|s| (s, &xa[..], &wa[..])), true);
 
-    for f in cheetah_fills(c, seed) {
+    for fd in fds {
+        let f = cheetah_fill(c, seed, fd);
         let stage = Cell::new("");
         let shape = Cell::new(0u64);
         let multi = Cell::new(false);
@@ -406,6 +560,10 @@ fn check_cheetah(c: &MCase, seed: u64) -> CaseOut {
                 let pb = helper.encode_outputs_bfv(be, b);
                 stage.set("add_plain_inplace");
                 y.add_plain_inplace(ev, &pb);
+            }
+            if big && sch == Scheme::BFV && f.bias.is_some() {
+                stage.set("noise_budget");
+                low_mark(format!("{sec}: invariant noise budget (bits) of the outputs of the dense and all-(t-1) fills"), min_budget(&kx, &y));
             }
             if wire {
                 let terms = if c.pack { None } else { Some(helper.output_terms()) };
@@ -455,7 +613,7 @@ fn check_cheetah(c: &MCase, seed: u64) -> CaseOut {
         }
     }
 
-    CaseOut::pass(tally.multi, h64(&("cheetah", sch, c.pack, c.dir, c.transport, tally.shape)), tally.steps)
+    CaseOut::pass(tally.multi, h64(&(sec, sch, c.pack, c.dir, c.transport, tally.shape)), tally.steps)
 }
 
 fn cheetah_cases(specs: &[(ParamSpec, Vec<usize>)], cap: usize, zero_dims: bool) -> Vec<MCase> {
@@ -552,13 +710,21 @@ impl BoltH {
 }
 
 fn check_bolt(c: &BCase, seed: u64) -> CaseOut {
+    run_bolt(c, "bolt", None, h64(&serde_json::to_string(c).unwrap_or_default()), seed)
+}
+fn check_big_bolt(b: &Big<BCase>, seed: u64) -> CaseOut {
+    run_bolt(&b.c, "big_bolt", Some(b.side), h64(&serde_json::to_string(b).unwrap_or_default()), seed)
+}
+
+/// `side` = None: the fills of the small-size section (unit pairs when `c.units`); Some(s): one-sided unit fills (see `Big`)
+fn run_bolt(c: &BCase, sec: &str, side: Option<u8>, tag: u64, seed: u64) -> CaseOut {
     let sch = c.spec.scheme;
     let kx = match kitx(&c.spec, Keys::GaloisRelin, seed) {
         Ok(k) => k,
         Err(e) => return CaseOut::skip(&format!("parameter set rejected: {e}")),
     };
-    env_real(seed, h64(&serde_json::to_string(c).unwrap_or_default()));
-    let kp = format!("bolt:{:?}:{sch:?}", c.kind);
+    env_real(seed, tag);
+    let kp = format!("{sec}:{:?}:{sch:?}", c.kind);
     let nn = c.spec.n;
     let helper = match guard(|| match c.kind {
         Bolt::Cp => BoltH::Cp(MatmulBoltCp::new(c.m, c.r, c.n, nn)),
@@ -567,7 +733,7 @@ fn check_bolt(c: &BCase, seed: u64) -> CaseOut {
     }) {
         Ok(h) => h,
         Err(p) => {
-            note(format!("bolt: constructor panic: {}", panic_class(&p)));
+            note(format!("{sec}: constructor panic: {}", panic_class(&p)));
             return CaseOut::fail(format!("{kp}:new:panic:{}", panic_class(&p)), format!("new({},{},{},N={nn}) returns (all dimensions >= 1)", c.m, c.r, c.n), p);
         }
     };
@@ -595,18 +761,37 @@ fn check_bolt(c: &BCase, seed: u64) -> CaseOut {
         }
     }
 
-    let mut fills: Vec<(&'static str, Vec<u64>, Vec<u64>, Option<Vec<u64>>)> = vec![];
-    if c.units {
-        for a in 0..m * r {
-            for b in 0..r * n {
-                fills.push(("unit", unit(m * r, a, 1), unit(r * n, b, t - 1), None));
-            }
-        }
+    let big = side.is_some();
+    if big {
+        // blocking as documented in the helpers' headers: g = ceil_two_power(M), s = N / g slots groups, log2(s) rotate-and-add steps
+        let half = nn / 2;
+        let mm = match c.kind {
+            Bolt::Cp => m.min(half),
+            Bolt::CcCr => m.max(n).min(half),
+            Bolt::CcDc => m.max(r).min(half),
+        };
+        let s = nn / ceil2(mm);
+        reached(format!("{sec}: {:?} N = {nn}: gap g", c.kind), ceil2(mm));
+        reached(format!("{sec}: {:?} N = {nn}: rotate-and-add depth log2(N/g)", c.kind), s.trailing_zeros() as usize);
+        let (inner, outer) = match c.kind {
+            Bolt::Cp => (r, n),
+            Bolt::CcCr => (r, mm),
+            Bolt::CcDc => (mm, n),
+        };
+        reached(format!("{sec}: {:?}: ciphertexts per packed operand, ceil(dim/s)", c.kind), (inner + s - 1) / s);
+        reached(format!("{sec}: {:?}: ciphertexts per packed result, ceil(dim/s)", c.kind), (outer + s - 1) / s);
     }
-    fills.push(("dense", dense(seed, 1, m * r, t), dense(seed, 2, r * n, t), Some(dense(seed, 5, m * n, t))));
-    fills.push(("max", vec![t - 1; m * r], vec![t - 1; r * n], Some(vec![t - 1; m * n])));
+    let (xa, wa) = ([m, r], [r, n]);
+    let fds = fill_list(if c.units { Some((m * r, r * n)) } else { None }, side.map(|s| (s, &xa[..], &wa[..])), big);
 
-    for (kind, x, w, bias) in fills {
+    for fd in fds {
+        let (kind, x, w, bias): (&'static str, Vec<u64>, Vec<u64>, Option<Vec<u64>>) = match fd {
+            FD::Pair(a, b) => ("unit", unit(m * r, a, 1), unit(r * n, b, t - 1), None),
+            FD::UnitX(a) => ("unit-x", unit(m * r, a, 1), dense(seed, 2, r * n, t), None),
+            FD::UnitW(b) => ("unit-w", dense(seed, 1, m * r, t), unit(r * n, b, t - 1), None),
+            FD::Dense => ("dense", dense(seed, 1, m * r, t), dense(seed, 2, r * n, t), Some(dense(seed, 5, m * n, t))),
+            FD::Max => ("max", vec![t - 1; m * r], vec![t - 1; r * n], Some(vec![t - 1; m * n])),
+        };
         let stage = Cell::new("");
         let shape = Cell::new(0u64);
         let multi = Cell::new(false);
@@ -647,6 +832,9 @@ fn check_bolt(c: &BCase, seed: u64) -> CaseOut {
             if sch == Scheme::BFV {
                 stage.set("noise_budget");
                 budget.set(y.data.iter().flat_map(|d| d.data.iter()).map(|ct| dec.invariant_noise_budget(ct)).min().unwrap_or(0));
+                if big {
+                    low_mark(format!("{sec}: invariant noise budget (bits) of the outputs"), budget.get());
+                }
             }
             stage.set("decrypt");
             let yp = y.decrypt(dec);
@@ -668,7 +856,7 @@ fn check_bolt(c: &BCase, seed: u64) -> CaseOut {
             Err(p) => return CaseOut::fail(format!("{kp}:{}:panic:{}", stage.get(), panic_class(&p)), format!("{} -> {}", inp(), short(&exp)), p),
         }
     }
-    CaseOut::pass(tally.multi, h64(&("bolt", c.kind, sch, c.transport, tally.shape)), tally.steps)
+    CaseOut::pass(tally.multi, h64(&(sec, c.kind, sch, c.transport, tally.shape)), tally.steps)
 }
 
 fn bolt_cases(specs: &[(ParamSpec, Vec<usize>, usize)]) -> Vec<BCase> {
@@ -728,7 +916,7 @@ pub struct VCase {
     pub dir: Dir,
     pub transport: Transport,
     /// 0: dense + max only, 1: + every input unit against dense weights and every weight unit against dense inputs,
-    /// 2: + every pair of unit operands
+    /// 2: + every pair of unit operands, 3: as 1 at the boundary indices of every axis only (production-size section)
     pub units: u8,
 }
 
@@ -758,46 +946,54 @@ fn conv_ref(x: &[u64], w: &[u64], s: &ConvShape, t: u64) -> Vec<u64> {
     y
 }
 
-fn conv_fills(c: &VCase, seed: u64) -> Vec<(&'static str, Vec<u64>, Vec<u64>, Option<Vec<u64>>)> {
+fn conv_fill_list(c: &VCase) -> Vec<FD> {
+    let s = &c.s;
+    // dense fills first: a defect of the blocking shows up before the sparse fills are reached
+    let (xa, wa) = ([s.b, s.ci, s.h, s.w], [s.co, s.ci, s.kh, s.kw]);
+    match c.units {
+        0 => fill_list(None, None, true),
+        1 => fill_list(None, Some((2, &xa[..], &wa[..])), true),
+        2 => fill_list(Some((s.in_len(), s.w_len())), None, true),
+        _ => fill_list(None, Some((1, &xa[..], &wa[..])), true),
+    }
+}
+
+fn conv_fill(c: &VCase, seed: u64, fd: FD) -> (&'static str, Vec<u64>, Vec<u64>, Option<Vec<u64>>) {
     let (s, t) = (&c.s, c.spec.t);
     let (li, lw, lo) = (s.in_len(), s.w_len(), s.out_len());
-    // dense fills first: a defect of the blocking shows up before the sparse fills are reached
-    let mut v = vec![];
-    v.push(("dense", dense(seed, 1, li, t), dense(seed, 2, lw, t), Some(dense(seed, 5, lo, t))));
-    v.push(("max", vec![t - 1; li], vec![t - 1; lw], Some(vec![t - 1; lo])));
-    if c.units >= 2 {
-        for a in 0..li {
-            for b in 0..lw {
-                v.push(("unit", unit(li, a, 1), unit(lw, b, t - 1), None));
-            }
-        }
-    } else if c.units == 1 {
-        let (dx, dw) = (dense(seed, 1, li, t), dense(seed, 2, lw, t));
-        for a in 0..li {
-            v.push(("unit-x", unit(li, a, 1), dw.clone(), None));
-        }
-        for b in 0..lw {
-            v.push(("unit-w", dx.clone(), unit(lw, b, 1), None));
-        }
+    match fd {
+        FD::Dense => ("dense", dense(seed, 1, li, t), dense(seed, 2, lw, t), Some(dense(seed, 5, lo, t))),
+        FD::Max => ("max", vec![t - 1; li], vec![t - 1; lw], Some(vec![t - 1; lo])),
+        FD::Pair(a, b) => ("unit", unit(li, a, 1), unit(lw, b, t - 1), None),
+        FD::UnitX(a) => ("unit-x", unit(li, a, 1), dense(seed, 2, lw, t), None),
+        FD::UnitW(b) => ("unit-w", dense(seed, 1, li, t), unit(lw, b, 1), None),
     }
-    v
 }
 
 fn check_conv(c: &VCase, seed: u64) -> CaseOut {
+    run_conv(c, "conv2d", seed)
+}
+fn check_big_conv(c: &VCase, seed: u64) -> CaseOut {
+    run_conv(c, "big_conv2d", seed)
+}
+
+fn run_conv(c: &VCase, sec: &str, seed: u64) -> CaseOut {
     let sch = c.spec.scheme;
     let s = c.s;
+    let big = sec != "conv2d";
     let kx = match kitx(&c.spec, Keys::None, seed) {
         Ok(k) => k,
         Err(e) => return CaseOut::skip(&format!("parameter set rejected: {e}")),
     };
-    env_real(seed, h64(&serde_json::to_string(c).unwrap_or_default()));
-    let kp = format!("conv2d:{sch:?}");
+    let json = serde_json::to_string(c).unwrap_or_default();
+    env_real(seed, if big { h64(&(sec, &json)) } else { h64(&json) });
+    let kp = format!("{sec}:{sch:?}");
     let nn = c.spec.n;
     let fits = s.kh * s.kw <= nn;
     let helper = match guard(|| Conv2dHelper::new(s.b, s.ci, s.co, s.h, s.w, s.kh, s.kw, nn, c.obj.to())) {
         Ok(h) => h,
         Err(p) => {
-            note(format!("conv2d: constructor panic: {}", panic_class(&p)));
+            note(format!("{sec}: constructor panic: {}", panic_class(&p)));
             if !fits {
                 return CaseOut::skip(&format!("kernel larger than the ring, constructor: {}", panic_class(&p)));
             }
@@ -818,11 +1014,12 @@ fn check_conv(c: &VCase, seed: u64) -> CaseOut {
             Ok(_) => "accepted".to_string(),
             Err(p) => panic_class(&p),
         };
-        note(format!("conv2d: kernel with more coefficients than the ring (k_h*k_w > N) is not refused by the constructor; encode_inputs: {how}"));
+        note(format!("{sec}: kernel with more coefficients than the ring (k_h*k_w > N) is not refused by the constructor; encode_inputs: {how}"));
         return CaseOut::skip(&format!("kernel larger than the ring: {how}"));
     }
 
-    for (kind, x, w, bias) in conv_fills(c, seed) {
+    for fd in conv_fill_list(c) {
+        let (kind, x, w, bias) = conv_fill(c, seed, fd);
         let stage = Cell::new("");
         let shape = Cell::new(0u64);
         let multi = Cell::new(false);
@@ -848,6 +1045,15 @@ fn check_conv(c: &VCase, seed: u64) -> CaseOut {
                 let pb = helper.encode_outputs_bfv(be, b);
                 stage.set("add_plain_inplace");
                 y.add_plain_inplace(ev, &pb);
+            }
+            if big && bias.is_some() {
+                reached(format!("{sec}: ciphertexts of the encoded inputs, batch x height x width cuts"), dx.0);
+                reached(format!("{sec}: ciphertexts of the encoded inputs, input channel cuts"), dx.1);
+                reached(format!("{sec}: plaintexts of the encoded weights, output channel cuts"), dw.0);
+                if sch == Scheme::BFV {
+                    stage.set("noise_budget");
+                    low_mark(format!("{sec}: invariant noise budget (bits) of the outputs of the dense and all-(t-1) fills"), min_budget(&kx, &y));
+                }
             }
             if wire {
                 let terms = helper.output_terms();
@@ -893,7 +1099,7 @@ fn check_conv(c: &VCase, seed: u64) -> CaseOut {
         }
     }
 
-    CaseOut::pass(tally.multi, h64(&("conv2d", sch, c.dir, c.transport, tally.shape)), tally.steps)
+    CaseOut::pass(tally.multi, h64(&(sec, sch, c.dir, c.transport, tally.shape)), tally.steps)
 }
 
 fn conv_shapes(bmax: usize, cmax: usize, hmax: usize, wmax: usize, kmax: usize) -> Vec<ConvShape> {
@@ -1011,20 +1217,28 @@ fn fshort(v: &[f64]) -> String {
 }
 
 fn check_ckks(c: &KCase, seed: u64) -> CaseOut {
+    run_ckks(c, false, seed)
+}
+fn check_big_ckks(c: &KCase, seed: u64) -> CaseOut {
+    run_ckks(c, true, seed)
+}
+
+fn run_ckks(c: &KCase, big: bool, seed: u64) -> CaseOut {
     let pack = matches!(c.shape, KShape::Matmul { pack: true, .. });
     let kx = match kitx(&c.spec, if pack { Keys::Auto } else { Keys::None }, seed) {
         Ok(k) => k,
         Err(e) => return CaseOut::skip(&format!("parameter set rejected: {e}")),
     };
-    env_real(seed, h64(&serde_json::to_string(c).unwrap_or_default()));
+    let json = serde_json::to_string(c).unwrap_or_default();
+    env_real(seed, if big { h64(&("big_ckks", &json)) } else { h64(&json) });
     let nn = c.spec.n;
     let ce = kx.ce.as_ref().unwrap();
     let (ev, dec) = (&kx.kit.eval, &kx.kit.dec);
     let scale = 2f64.powi(c.log_scale as i32);
     let wire = c.transport == Transport::Wire;
     let what = match &c.shape {
-        KShape::Matmul { pack, .. } => format!("cheetah:CKKS:pack={}", *pack as u8),
-        KShape::Conv(_) => "conv2d:CKKS".to_string(),
+        KShape::Matmul { pack, .. } => format!("{}cheetah:CKKS:pack={}", if big { "big_ckks:" } else { "" }, *pack as u8),
+        KShape::Conv(_) => format!("{}conv2d:CKKS", if big { "big_ckks:" } else { "" }),
     };
     enum H {
         M(MatmulHelper, usize, usize, usize),
@@ -1053,11 +1267,25 @@ fn check_ckks(c: &KCase, seed: u64) -> CaseOut {
     if bound > 1.0 / 256.0 {
         return CaseOut::skip("a-priori bound too weak to separate index mistakes");
     }
-    let fills: Vec<(&'static str, Vec<f64>, Vec<f64>, Vec<f64>)> = vec![
+    let mut fills: Vec<(&'static str, Vec<f64>, Vec<f64>, Vec<f64>)> = vec![
         ("dense", fdense(seed, 1, lx), fdense(seed, 2, lw), fdense(seed, 5, lo)),
         ("max", vec![CK_B; lx], vec![-CK_B; lw], vec![CK_B; lo]),
         ("first-unit", { let mut v = vec![0.0; lx]; v[0] = 1.0; v }, { let mut v = vec![0.0; lw]; v[0] = 1.0; v }, vec![0.0; lo]),
     ];
+    if big {
+        // one-sided sparse fills: the last unit and the comb of all boundary indices, against the dense other operand
+        let comb = |len: usize| -> Vec<f64> {
+            let mut v = vec![0.0; len];
+            for i in bset(len) {
+                v[i] = 1.0 + (i % 3) as f64;
+            }
+            v
+        };
+        fills.push(("last-unit-x", { let mut v = vec![0.0; lx]; v[lx - 1] = 1.0; v }, fdense(seed, 2, lw), vec![0.0; lo]));
+        fills.push(("last-unit-w", fdense(seed, 1, lx), { let mut v = vec![0.0; lw]; v[lw - 1] = 1.0; v }, vec![0.0; lo]));
+        fills.push(("comb-x", comb(lx), fdense(seed, 2, lw), fdense(seed, 5, lo)));
+        fills.push(("comb-w", fdense(seed, 1, lx), comb(lw), fdense(seed, 5, lo)));
+    }
     let mut steps = 0u64;
     let mut shape_h = 0u64;
     let mut multi_any = false;
@@ -1246,17 +1474,174 @@ fn rnsp_values(c: &RCase, p: &BigU) -> Vec<BigU> {
     }
 }
 
-fn check_rnsp(c: &RCase, seed: u64) -> CaseOut {
-    let tag = h64(&serde_json::to_string(c).unwrap_or_default());
-    env_real(seed, tag);
-    let k = c.t.len();
-    let n = c.n;
-    let kp = format!("rnsp:{:?}:{}:{}", c.scheme, if c.batch { "batch" } else { "poly" }, c.op);
-    let built = guard(|| {
-        let parms = RnspEncryptionParameters::new(c.scheme.ty())
+/// One pipeline of the wrapper on the slot (coefficient) vectors a, b; the first `la` words of each are handed to the encoder
+/// (the encoder pads). Returns (what, observed, expected) triples. `ci` selects the call form (ci % 3: _new, _inplace,
+/// destination) and the encryption of b (even: public key, odd: symmetric).
+#[allow(clippy::too_many_arguments)]
+fn rnsp_pipeline(kit: &RKit, batch: bool, op: &str, k: usize, n: usize, p: &BigU, a: &[BigU], b: &[BigU], la: usize, ci: usize, stage: &Cell<&'static str>) -> Vec<(String, Vec<BigU>, Vec<BigU>)> {
+    let a = a.to_vec();
+    let b = b.to_vec();
+    let p = p.clone();
+    let form = ci % 3; // 0: _new, 1: _inplace, 2: destination form
+    let words = |v: &[BigU]| -> Vec<u64> { v.iter().flat_map(|x| x.limbs(k)).collect() };
+    let unwords = |w: &[u64]| -> Vec<BigU> { w.chunks(k).map(BigU::from_limbs).collect() };
+    let submod = |a: &BigU, b: &BigU| a.add(&p).sub(b).rem(&p);
+    // reference on one slot vector (batch: slot-wise; poly: ring Z_P[X]/(X^N+1))
+    let ref_mul = |a: &[BigU], b: &[BigU]| -> Vec<BigU> {
+        if batch {
+            a.iter().zip(b).map(|(x, y)| x.mul(y).rem(&p)).collect()
+        } else {
+            let mut r = vec![BigU::zero(); n];
+            for i in 0..n {
+                for j in 0..n {
+                    if a[i].is_zero() || b[j].is_zero() {
+                        continue;
+                    }
+                    let pr = a[i].mul(&b[j]).rem(&p);
+                    let kk = (i + j) % n;
+                    r[kk] = if i + j < n { r[kk].add(&pr).rem(&p) } else { submod(&r[kk], &pr) };
+                }
+            }
+            r
+        }
+    };
+    let empty = || RnspCiphertext::from_raw_parts(vec![Ciphertext::new(); k]);
+    {
+    let (wa, wb) = (words(&a), words(&b));
+    stage.set("encode");
+    let (pa, pb) = if batch { (kit.enc.encode_new(&wa[..la]), kit.enc.encode_new(&wb[..la])) } else { (kit.enc.encode_polynomial_new(&wa[..la]), kit.enc.encode_polynomial_new(&wb[..la])) };
+    let decode = |pt: &RnspPlaintext| -> Vec<BigU> { unwords(&if batch { kit.enc.decode_new(pt) } else { kit.enc.decode_polynomial_new(pt) }) };
+    let mut out: Vec<(String, Vec<BigU>, Vec<BigU>)> = vec![];
+    // tiny rings (fewer than 9 words per polynomial) produce seedless symmetric ciphertexts: expand only when there is a seed
+    let sym = |pt: &RnspPlaintext| -> RnspCiphertext {
+        let ct = kit.encryptor.encrypt_symmetric_new(pt);
+        if ct.contains_seed() {
+            ct.expand_seed(&kit.ctx)
+        } else {
+            ct
+        }
+    };
+    if op == "roundtrip" {
+        stage.set("decode");
+        out.push(("decode(encode(a))".into(), decode(&pa), a.clone()));
+        stage.set("encrypt");
+        let ct = kit.encryptor.encrypt_new(&pa);
+        stage.set("decrypt");
+        out.push(("decrypt(encrypt(a))".into(), decode(&kit.dec.decrypt_new(&ct)), a.clone()));
+        stage.set("encrypt_symmetric");
+        let ct = sym(&pb);
+        stage.set("decrypt");
+        let mut dst = RnspPlaintext::from_raw_parts(vec![heathcliff::Plaintext::new(); k]);
+        kit.dec.decrypt(&ct, &mut dst);
+        out.push(("decrypt(encrypt_symmetric(b))".into(), decode(&dst), b.clone()));
+        return out;
+    }
+    stage.set("encrypt");
+    let ca = kit.encryptor.encrypt_new(&pa);
+    let cb = if ci % 2 == 0 { kit.encryptor.encrypt_new(&pb) } else { sym(&pb) };
+    let ev = &kit.ev;
+    stage.set("evaluate");
+    macro_rules! forms {
+        ($new:ident, $inpl:ident, $dst:ident, $rhs:expr) => {{
+            match form {
+                0 => ev.$new(&ca, $rhs),
+                1 => {
+                    let mut x = ca.clone();
+                    ev.$inpl(&mut x, $rhs);
+                    x
+                }
+                _ => {
+                    let mut d = empty();
+                    ev.$dst(&ca, $rhs, &mut d);
+                    d
+                }
+            }
+        }};
+    }
+    let (res, exp): (RnspCiphertext, Vec<BigU>) = match op {
+        "add" => (forms!(add_new, add_inplace, add, &cb), a.iter().zip(&b).map(|(x, y)| x.add(y).rem(&p)).collect()),
+        "sub" => (forms!(sub_new, sub_inplace, sub, &cb), a.iter().zip(&b).map(|(x, y)| submod(x, y)).collect()),
+        "multiply" => {
+            let prod = forms!(multiply_new, multiply_inplace, multiply, &cb);
+            let exp = ref_mul(&a, &b);
+            stage.set("decrypt size-3");
+            out.push(("decrypt(multiply(a,b)) before relinearization".into(), decode(&kit.dec.decrypt_new(&prod)), exp.clone()));
+            stage.set("relinearize");
+            let r = match form {
+                0 => ev.relinearize_new(&prod, &kit.rk),
+                1 => {
+                    let mut x = prod.clone();
+                    ev.relinearize_inplace(&mut x, &kit.rk);
+                    x
+                }
+                _ => {
+                    let mut d = empty();
+                    ev.relinearize(&prod, &kit.rk, &mut d);
+                    d
+                }
+            };
+            (r, exp)
+        }
+        "square" => {
+            let sq = match form {
+                0 => ev.square_new(&ca),
+                1 => {
+                    let mut x = ca.clone();
+                    ev.square_inplace(&mut x);
+                    x
+                }
+                _ => {
+                    let mut d = empty();
+                    ev.square(&ca, &mut d);
+                    d
+                }
+            };
+            stage.set("relinearize");
+            (ev.relinearize_new(&sq, &kit.rk), ref_mul(&a, &a))
+        }
+        "negate" => {
+            let r = if form == 1 {
+                let mut x = ca.clone();
+                ev.negate_inplace(&mut x);
+                x
+            } else {
+                ev.negate_new(&ca)
+            };
+            (r, a.iter().map(|x| submod(&BigU::zero(), x)).collect())
+        }
+        "add_plain" => (forms!(add_plain_new, add_plain_inplace, add_plain, &pb), a.iter().zip(&b).map(|(x, y)| x.add(y).rem(&p)).collect()),
+        "sub_plain" => (forms!(sub_plain_new, sub_plain_inplace, sub_plain, &pb), a.iter().zip(&b).map(|(x, y)| submod(x, y)).collect()),
+        "multiply_plain" => (forms!(multiply_plain_new, multiply_plain_inplace, multiply_plain, &pb), ref_mul(&a, &b)),
+        "mod_switch" => {
+            let r = match form {
+                0 => ev.mod_switch_to_next_new(&ca),
+                1 => {
+                    let mut x = ca.clone();
+                    ev.mod_switch_to_next_inplace(&mut x);
+                    x
+                }
+                _ => {
+                    let mut d = empty();
+                    ev.mod_switch_to_next(&ca, &mut d);
+                    d
+                }
+            };
+            (r, a.clone())
+        }
+        o => panic!("unknown rnsp op {o}"),
+    };
+    stage.set("decrypt");
+    out.push((format!("{}(a,b) form {form}", op), decode(&kit.dec.decrypt_new(&res)), exp));
+    out
+    }
+}
+
+fn rnsp_kit(scheme: Scheme, n: usize, q: &[u64], t: &[u64]) -> Result<Option<RKit>, String> {
+    guard(|| {
+        let parms = RnspEncryptionParameters::new(scheme.ty())
             .set_poly_modulus_degree(n)
-            .set_plain_modulus(c.t.iter().map(|&v| heathcliff::Modulus::new(v)).collect())
-            .set_coeff_modulus(c.q.iter().map(|&v| heathcliff::Modulus::new(v)).collect());
+            .set_plain_modulus(t.iter().map(|&v| heathcliff::Modulus::new(v)).collect())
+            .set_coeff_modulus(q.iter().map(|&v| heathcliff::Modulus::new(v)).collect());
         let ctx = RnspHeContext::new(parms, true, heathcliff::SecurityLevel::None);
         if !ctx.parameters_set() {
             return None;
@@ -1273,8 +1658,110 @@ fn check_rnsp(c: &RCase, seed: u64) -> CaseOut {
             rk,
             ctx,
         })
-    });
-    let kit = match built {
+    })
+}
+
+fn check_rnsp(c: &RCase, seed: u64) -> CaseOut {
+    run_rnsp(c, "rnsp", h64(&serde_json::to_string(c).unwrap_or_default()), seed)
+}
+
+/// production-size case of the wrapper: many plain moduli at a tiny degree (the small-size case type) or a large degree
+#[derive(Serialize, Deserialize, Clone, Debug)]
+pub enum RXCase {
+    Moduli(RCase),
+    Degree(RBCase),
+}
+
+#[derive(Serialize, Deserialize, Clone, Debug)]
+pub struct RBCase {
+    pub scheme: Scheme,
+    pub n: usize,
+    pub q: Vec<u64>,
+    /// plain moduli
+    pub t: Vec<u64>,
+    pub batch: bool,
+    pub op: String,
+}
+
+fn check_big_rnsp(c: &RXCase, seed: u64) -> CaseOut {
+    let tag = h64(&serde_json::to_string(c).unwrap_or_default());
+    match c {
+        RXCase::Moduli(r) => run_rnsp(r, "big_rnsp", tag, seed),
+        RXCase::Degree(r) => run_rnsp_degree(r, tag, seed),
+    }
+}
+
+/// Structured slot (coefficient) vectors at a large degree: a dense vector pair with pairwise different values, the same
+/// handed to the encoder truncated to every boundary length (the encoder pads), every boundary unit slot (value P-1)
+/// against the dense vector on either side.
+fn run_rnsp_degree(c: &RBCase, tag: u64, seed: u64) -> CaseOut {
+    env_real(seed, tag);
+    let (k, n) = (c.t.len(), c.n);
+    let kp = format!("big_rnsp:{:?}:{}:{}", c.scheme, if c.batch { "batch" } else { "poly" }, c.op);
+    let kit = match rnsp_kit(c.scheme, n, &c.q, &c.t) {
+        Ok(Some(k)) => k,
+        Ok(None) => return CaseOut::skip("parameter set rejected"),
+        Err(p) => return CaseOut::skip(&format!("parameter set rejected: {}", panic_class(&p))),
+    };
+    let p = BigU::product(&c.t);
+    let dense_big = |tg: u64| -> Vec<BigU> { (0..n).map(|i| BigU::from_limbs(&(0..k).map(|j| h64(&(seed, "rnsp-big", tg, i as u64, j as u64))).collect::<Vec<_>>()).rem(&p)).collect() };
+    let (da, db) = (dense_big(1), dense_big(2));
+    // (what, a, b, slots handed to the encoder)
+    let mut vecs: Vec<(String, Vec<BigU>, Vec<BigU>, usize)> = vec![("dense".into(), da.clone(), db.clone(), n)];
+    // the O(N^2) reference of the polynomial products: boundary lengths and units up to 65 only
+    let heavy = !c.batch && matches!(c.op.as_str(), "multiply" | "square" | "multiply_plain");
+    for l in bset(n + 1) {
+        if l == n || (heavy && l > 65) {
+            continue;
+        }
+        let cut = |v: &[BigU]| -> Vec<BigU> { v.iter().enumerate().map(|(i, x)| if i < l { x.clone() } else { BigU::zero() }).collect() };
+        vecs.push((format!("dense, first {l} slots"), cut(&da), cut(&db), l));
+    }
+    for i in bset(n) {
+        let mut u = vec![BigU::zero(); n];
+        u[i] = p.sub(&BigU::one());
+        vecs.push((format!("unit slot {i} (P-1) x dense"), u.clone(), db.clone(), n));
+        if !heavy || i <= 65 {
+            vecs.push((format!("dense x unit slot {i} (P-1)"), da.clone(), u, n));
+        }
+    }
+    let mut steps = 0u64;
+    for (ci, (what, a, b, l)) in vecs.iter().enumerate() {
+        let stage = Cell::new("");
+        let run = guard(|| rnsp_pipeline(&kit, c.batch, &c.op, k, n, &p, a, b, l * k, ci, &stage));
+        let hx = |v: &[BigU]| {
+            let h: Vec<String> = v.iter().take(24).map(|x| x.to_hex()).collect();
+            format!("{}{}", h.join(","), if v.len() > 24 { format!(",…({} values)", v.len()) } else { String::new() })
+        };
+        match run {
+            Ok(list) => {
+                for (w2, obs, exp) in list {
+                    steps += 1;
+                    if obs != exp {
+                        let at = obs.iter().zip(&exp).position(|(x, y)| x != y).unwrap_or(obs.len().min(exp.len()));
+                        return CaseOut::fail(format!("{kp}:wrong"), format!("{w2} on [{what}]: a=[{}] b=[{}] modulo P={} -> [{}]", hx(a), hx(b), p.to_hex(), hx(&exp)), format!("[{}] (first difference at slot {at})", hx(&obs)));
+                    }
+                }
+            }
+            Err(pn) => {
+                // multiplication by a zero plaintext is refused by the library ("transparent" result): not a wrapper matter
+                if c.op == "multiply_plain" && pn.contains("transparent") {
+                    note(format!("big_rnsp: multiply_plain refusal: {}", panic_class(&pn)));
+                    continue;
+                }
+                return CaseOut::fail(format!("{kp}:{}:panic:{}", stage.get(), panic_class(&pn)), format!("no panic on [{what}]: a=[{}] b=[{}] P={}", hx(a), hx(b), p.to_hex()), pn);
+            }
+        }
+    }
+    CaseOut::pass(steps > 0, h64(&(kp.as_str(), k, n, steps)), steps)
+}
+
+fn run_rnsp(c: &RCase, sec: &str, tag: u64, seed: u64) -> CaseOut {
+    env_real(seed, tag);
+    let k = c.t.len();
+    let n = c.n;
+    let kp = format!("{sec}:{:?}:{}:{}", c.scheme, if c.batch { "batch" } else { "poly" }, c.op);
+    let kit = match rnsp_kit(c.scheme, n, &c.q, &c.t) {
         Ok(Some(k)) => k,
         Ok(None) => return CaseOut::skip("parameter set rejected"),
         Err(p) => return CaseOut::skip(&format!("parameter set rejected: {}", panic_class(&p))),
@@ -1303,26 +1790,6 @@ fn check_rnsp(c: &RCase, seed: u64) -> CaseOut {
             pairs.push((a.clone(), b));
         }
     }
-    let words = |v: &[BigU]| -> Vec<u64> { v.iter().flat_map(|x| x.limbs(k)).collect() };
-    let unwords = |w: &[u64]| -> Vec<BigU> { w.chunks(k).map(BigU::from_limbs).collect() };
-    let submod = |a: &BigU, b: &BigU| a.add(&p).sub(b).rem(&p);
-    // reference on one slot vector (batch: slot-wise; poly: ring Z_P[X]/(X^N+1))
-    let ref_mul = |a: &[BigU], b: &[BigU]| -> Vec<BigU> {
-        if c.batch {
-            a.iter().zip(b).map(|(x, y)| x.mul(y).rem(&p)).collect()
-        } else {
-            let mut r = vec![BigU::zero(); n];
-            for i in 0..n {
-                for j in 0..n {
-                    let pr = a[i].mul(&b[j]).rem(&p);
-                    let kk = (i + j) % n;
-                    r[kk] = if i + j < n { r[kk].add(&pr).rem(&p) } else { submod(&r[kk], &pr) };
-                }
-            }
-            r
-        }
-    };
-    let empty = || RnspCiphertext::from_raw_parts(vec![Ciphertext::new(); k]);
     let mut steps = 0u64;
     for (ci, chunk) in pairs.chunks(n).enumerate() {
         if ci % c.parts.max(1) != c.part {
@@ -1335,134 +1802,8 @@ fn check_rnsp(c: &RCase, seed: u64) -> CaseOut {
         // the last chunk is passed un-padded to exercise the encoder's own padding
         let la = chunk.len() * k;
         let stage = Cell::new("");
-        let form = ci % 3; // 0: _new, 1: _inplace, 2: destination form
         let run = guard(|| -> Vec<(String, Vec<BigU>, Vec<BigU>)> {
-            let (wa, wb) = (words(&a), words(&b));
-            stage.set("encode");
-            let (pa, pb) = if c.batch { (kit.enc.encode_new(&wa[..la]), kit.enc.encode_new(&wb[..la])) } else { (kit.enc.encode_polynomial_new(&wa[..la]), kit.enc.encode_polynomial_new(&wb[..la])) };
-            let decode = |pt: &RnspPlaintext| -> Vec<BigU> { unwords(&if c.batch { kit.enc.decode_new(pt) } else { kit.enc.decode_polynomial_new(pt) }) };
-            let mut out: Vec<(String, Vec<BigU>, Vec<BigU>)> = vec![];
-            // tiny rings (fewer than 9 words per polynomial) produce seedless symmetric ciphertexts: expand only when there is a seed
-            let sym = |pt: &RnspPlaintext| -> RnspCiphertext {
-                let ct = kit.encryptor.encrypt_symmetric_new(pt);
-                if ct.contains_seed() {
-                    ct.expand_seed(&kit.ctx)
-                } else {
-                    ct
-                }
-            };
-            if c.op == "roundtrip" {
-                stage.set("decode");
-                out.push(("decode(encode(a))".into(), decode(&pa), a.clone()));
-                stage.set("encrypt");
-                let ct = kit.encryptor.encrypt_new(&pa);
-                stage.set("decrypt");
-                out.push(("decrypt(encrypt(a))".into(), decode(&kit.dec.decrypt_new(&ct)), a.clone()));
-                stage.set("encrypt_symmetric");
-                let ct = sym(&pb);
-                stage.set("decrypt");
-                let mut dst = RnspPlaintext::from_raw_parts(vec![heathcliff::Plaintext::new(); k]);
-                kit.dec.decrypt(&ct, &mut dst);
-                out.push(("decrypt(encrypt_symmetric(b))".into(), decode(&dst), b.clone()));
-                return out;
-            }
-            stage.set("encrypt");
-            let ca = kit.encryptor.encrypt_new(&pa);
-            let cb = if ci % 2 == 0 { kit.encryptor.encrypt_new(&pb) } else { sym(&pb) };
-            let ev = &kit.ev;
-            stage.set("evaluate");
-            macro_rules! forms {
-                ($new:ident, $inpl:ident, $dst:ident, $rhs:expr) => {{
-                    match form {
-                        0 => ev.$new(&ca, $rhs),
-                        1 => {
-                            let mut x = ca.clone();
-                            ev.$inpl(&mut x, $rhs);
-                            x
-                        }
-                        _ => {
-                            let mut d = empty();
-                            ev.$dst(&ca, $rhs, &mut d);
-                            d
-                        }
-                    }
-                }};
-            }
-            let (res, exp): (RnspCiphertext, Vec<BigU>) = match c.op.as_str() {
-                "add" => (forms!(add_new, add_inplace, add, &cb), a.iter().zip(&b).map(|(x, y)| x.add(y).rem(&p)).collect()),
-                "sub" => (forms!(sub_new, sub_inplace, sub, &cb), a.iter().zip(&b).map(|(x, y)| submod(x, y)).collect()),
-                "multiply" => {
-                    let prod = forms!(multiply_new, multiply_inplace, multiply, &cb);
-                    let exp = ref_mul(&a, &b);
-                    stage.set("decrypt size-3");
-                    out.push(("decrypt(multiply(a,b)) before relinearization".into(), decode(&kit.dec.decrypt_new(&prod)), exp.clone()));
-                    stage.set("relinearize");
-                    let r = match form {
-                        0 => ev.relinearize_new(&prod, &kit.rk),
-                        1 => {
-                            let mut x = prod.clone();
-                            ev.relinearize_inplace(&mut x, &kit.rk);
-                            x
-                        }
-                        _ => {
-                            let mut d = empty();
-                            ev.relinearize(&prod, &kit.rk, &mut d);
-                            d
-                        }
-                    };
-                    (r, exp)
-                }
-                "square" => {
-                    let sq = match form {
-                        0 => ev.square_new(&ca),
-                        1 => {
-                            let mut x = ca.clone();
-                            ev.square_inplace(&mut x);
-                            x
-                        }
-                        _ => {
-                            let mut d = empty();
-                            ev.square(&ca, &mut d);
-                            d
-                        }
-                    };
-                    stage.set("relinearize");
-                    (ev.relinearize_new(&sq, &kit.rk), ref_mul(&a, &a))
-                }
-                "negate" => {
-                    let r = if form == 1 {
-                        let mut x = ca.clone();
-                        ev.negate_inplace(&mut x);
-                        x
-                    } else {
-                        ev.negate_new(&ca)
-                    };
-                    (r, a.iter().map(|x| submod(&BigU::zero(), x)).collect())
-                }
-                "add_plain" => (forms!(add_plain_new, add_plain_inplace, add_plain, &pb), a.iter().zip(&b).map(|(x, y)| x.add(y).rem(&p)).collect()),
-                "sub_plain" => (forms!(sub_plain_new, sub_plain_inplace, sub_plain, &pb), a.iter().zip(&b).map(|(x, y)| submod(x, y)).collect()),
-                "multiply_plain" => (forms!(multiply_plain_new, multiply_plain_inplace, multiply_plain, &pb), ref_mul(&a, &b)),
-                "mod_switch" => {
-                    let r = match form {
-                        0 => ev.mod_switch_to_next_new(&ca),
-                        1 => {
-                            let mut x = ca.clone();
-                            ev.mod_switch_to_next_inplace(&mut x);
-                            x
-                        }
-                        _ => {
-                            let mut d = empty();
-                            ev.mod_switch_to_next(&ca, &mut d);
-                            d
-                        }
-                    };
-                    (r, a.clone())
-                }
-                o => panic!("unknown rnsp op {o}"),
-            };
-            stage.set("decrypt");
-            out.push((format!("{}(a,b) form {form}", c.op), decode(&kit.dec.decrypt_new(&res)), exp));
-            out
+            rnsp_pipeline(&kit, c.batch, &c.op, k, n, &p, &a, &b, la, ci, &stage)
         });
         match run {
             Ok(list) => {
@@ -1478,7 +1819,7 @@ fn check_rnsp(c: &RCase, seed: u64) -> CaseOut {
                 let hx = |v: &[BigU]| v.iter().map(|x| x.to_hex()).collect::<Vec<_>>().join(",");
                 // multiplication of a zero plaintext is refused by the library ("transparent" result): not a wrapper matter
                 if c.op == "multiply_plain" && pn.contains("transparent") {
-                    note(format!("rnsp: multiply_plain refusal: {}", panic_class(&pn)));
+                    note(format!("{sec}: multiply_plain refusal: {}", panic_class(&pn)));
                     continue;
                 }
                 return CaseOut::fail(format!("{kp}:{}:panic:{}", stage.get(), panic_class(&pn)), format!("no panic for a=[{}] b=[{}] P={}", hx(&a), hx(&b), p.to_hex()), pn);
@@ -1679,5 +2020,385 @@ pub fn sections(cfg: &RunCfg) -> Vec<Box<dyn AnySection>> {
             .deadline(Duration::from_secs(120)),
         ));
     }
+    big_sections(cfg, &mut v);
     v
+}
+
+// ---------------------------------------------------------------------------------------------
+// production-size sections
+// ---------------------------------------------------------------------------------------------
+
+/// dimensions around the block-size boundaries 64 / 128 / 256
+const BIG_D: [usize; 9] = [63, 64, 65, 127, 128, 129, 200, 256, 300];
+
+fn shapes_label(sh: &[(usize, usize, usize)]) -> String {
+    let v: Vec<String> = sh.iter().map(|(m, r, n)| format!("{m}x{r}x{n}")).collect();
+    v.join(" ")
+}
+
+fn big_sections(cfg: &RunCfg, v: &mut Vec<Box<dyn AnySection>>) {
+    let seed = cfg.seed;
+    let thorough = cfg.thorough();
+    let wrap = |s: Box<dyn AnySection>| -> Box<dyn AnySection> { Box::new(Observed { inner: s }) };
+    let q60 = |n: usize| chain(n, &[60, 60, 60]);
+    // largest number of one-sided boundary unit fills per case
+    let nb_cap: usize = if thorough { 700 } else { 160 };
+
+    // ---- big_cheetah ----
+    {
+        // (spec, shapes, one-sided units on every index when |x| + |w| <= cap (boundary indices otherwise))
+        let mut specs: Vec<(ParamSpec, Vec<(usize, usize, usize)>, usize)> = vec![];
+        // input-dimension, output-dimension and batch families: the search puts the long axis into one block while it fits
+        let fam = |ds: &[usize], full: bool| -> Vec<(usize, usize, usize)> {
+            let mut sh = vec![];
+            for &d in ds {
+                sh.extend([(1, d, 1), (1, 1, d), (d, 1, 1)]);
+                if full {
+                    sh.extend([(1, d, 3), (3, d, 1), (3, 1, d), (d, 2, 2)]);
+                }
+            }
+            sh
+        };
+        if !thorough {
+            specs.push((ParamSpec::new(Scheme::BFV, 128, q60(128), 1 << 20), fam(&BIG_D, true), 140));
+            specs.push((ParamSpec::new(Scheme::BGV, 256, q60(256), 65537), fam(&[65, 129, 257, 300], false), 0));
+            specs.push((ParamSpec::new(Scheme::BFV, 1024, q60(1024), 1 << 20), fam(&[65, 300, 1025], false), 0));
+            // dense and all-(t-1) fills only (usize::MAX: no unit fills)
+            specs.push((ParamSpec::new(Scheme::BFV, 4096, q60(4096), 1 << 20), vec![(1, 4097, 1), (1, 1, 4097), (4097, 1, 1), (1, 256, 16)], usize::MAX));
+        } else {
+            specs.push((ParamSpec::new(Scheme::BFV, 128, q60(128), 1 << 20), fam(&BIG_D, true), 2000));
+            specs.push((ParamSpec::new(Scheme::BGV, 128, q60(128), 65537), fam(&BIG_D, false), 700));
+            specs.push((ParamSpec::new(Scheme::BFV, 256, q60(256), 65537), fam(&[63, 64, 65, 127, 128, 129, 200, 255, 256, 257, 300, 513], true), 2000));
+            specs.push((ParamSpec::new(Scheme::BFV, 512, q60(512), 1 << 20), fam(&[65, 129, 257, 511, 512, 513, 600], true), 700));
+            specs.push((ParamSpec::new(Scheme::BFV, 1024, q60(1024), 1 << 20), fam(&[63, 64, 65, 127, 128, 129, 255, 256, 257, 300, 511, 512, 513, 1023, 1024, 1025], true), 700));
+            specs.push((ParamSpec::new(Scheme::BGV, 1024, q60(1024), 65537), fam(&[65, 129, 257, 513, 1025], false), 0));
+            let mut s4 = fam(&[65, 129, 257, 513, 1025, 4095, 4096, 4097], false);
+            s4.extend([(1, 256, 16), (2, 300, 10), (8, 100, 8), (16, 200, 16), (1, 768, 64)]);
+            specs.push((ParamSpec::new(Scheme::BFV, 4096, q60(4096), 1 << 20), s4, 0));
+            specs.push((ParamSpec::new(Scheme::BFV, 8192, q60(8192), 1 << 20), vec![(1, 8193, 1), (1, 1, 8193), (8193, 1, 1), (1, 768, 64), (16, 200, 16)], 0));
+        }
+        let bound = specs
+            .iter()
+            .map(|(s, sh, cap)| format!("{} (m,r,n) in {{{}}} ({})", s.label(), shapes_label(sh), if *cap == usize::MAX { "no unit fills, pack_lwe only when r <= 16".to_string() } else { format!("every one-sided unit when m*r + r*n <= {cap}, else the boundary ones when there are <= {nb_cap}, else none") }))
+            .collect::<Vec<_>>()
+            .join("; ");
+        let mut cases = vec![];
+        for (spec, shapes, cap) in &specs {
+            for &(m, r, n) in shapes {
+                for (obj, dir) in [(Obj::CipherPlain, Dir::Forward), (Obj::PlainCipher, Dir::Reverse), (Obj::CpAddPc, Dir::Sum)] {
+                    for pack in [false, true] {
+                        // the dense-only sets: a long inner dimension with output packing is hundreds of ciphertexts and no new block size
+                        if pack && r > 16 && *cap == usize::MAX {
+                            continue;
+                        }
+                        for transport in [Transport::Direct, Transport::Wire] {
+                            let nb = side_indices(&[m, r], 1).len() + side_indices(&[r, n], 1).len();
+                            // with output packing the input block is at most 16 wide: a long inner dimension means many ciphertexts, no new block size
+                            let side = if transport == Transport::Wire || (pack && r > 16) || *cap == usize::MAX { 0 } else if m * r + r * n <= *cap { 2 } else if nb <= nb_cap { 1 } else { 0 };
+                            cases.push(Big { c: MCase { spec: spec.clone(), m, r, n, obj, pack, dir, transport, units: false }, side });
+                        }
+                    }
+                }
+            }
+        }
+        v.push(wrap(
+            E1::new(
+                "big_cheetah",
+                &format!("{bound} x (objective, direction) in {{(CipherPlain, matmul), (PlainCipher, matmul_reverse), (CpAddPc, sum of both)}} x pack_lwe(2) x transport(2); fills: dense+bias, all-(t-1)+bias, with the Direct transport (and, with pack_lwe, r <= 16) every one-sided unit (unit input x dense weights, dense inputs x unit weight) at all indices / at the boundary indices (0,1,2,p-1,p,p+1 for p = 8..8192,len-2,len-1 per axis); 4 encode_outputs inverses per (shape, objective, pack)"),
+                cases.into_iter(),
+                move |c: &Big<MCase>| check_big_cheetah(c, seed),
+            )
+            .batch(2)
+            .deadline(Duration::from_secs(600)),
+        ));
+    }
+    // ---- big_bolt ----
+    {
+        // per helper the shape families that drive its own gap g = ceil_two_power(M) through every power of two (rotate-and-add
+        // depth log2(N/g) = log2(N) .. 1) with operands of s-1, s, s+1 packed columns, and the (1,d,k) families
+        let depth_shapes = |kind: Bolt, n: usize, gaps: &[usize]| -> Vec<(usize, usize, usize)> {
+            let mut sh = vec![];
+            for &g in gaps {
+                let s = n / g;
+                let ms: Vec<usize> = if g >= 4 { vec![g / 2 + 1, g] } else { vec![g] };
+                for mm in ms {
+                    match kind {
+                        Bolt::Cp => sh.extend([(mm, s + 1, 1), (mm, 2, s + 1), (mm, s, s)]),
+                        Bolt::CcCr => sh.extend([(mm, s + 1, 1), (1, s, mm), (mm, s.min(65).max(2) - 1, mm)]),
+                        Bolt::CcDc => sh.extend([(mm, 1, s + 1), (1, mm, s), (mm, mm, 2)]),
+                    }
+                }
+            }
+            sh
+        };
+        let pow2 = |lo: usize, hi: usize| -> Vec<usize> { (0..14).map(|e| 1usize << e).filter(|&g| g >= lo && g <= hi).collect() };
+        let dfam = |ds: &[usize], full: bool| -> Vec<(usize, usize, usize)> {
+            let mut sh = vec![];
+            for &d in ds {
+                sh.push((1, d, 1));
+                if full {
+                    sh.extend([(1, d, 3), (3, d, 1)]);
+                }
+            }
+            sh
+        };
+        // (spec, kind, shapes, side)
+        let mut sets: Vec<(ParamSpec, Bolt, Vec<(usize, usize, usize)>, u8)> = vec![];
+        let kinds = [Bolt::Cp, Bolt::CcCr, Bolt::CcDc];
+        let q4 = |n: usize| chain(n, &[60, 60, 60, 60]);
+        if !thorough {
+            for kind in kinds {
+                let p128 = ParamSpec::new(Scheme::BFV, 128, q60(128), 257);
+                sets.push((p128.clone(), kind, depth_shapes(kind, 128, &pow2(1, 4)), 3));
+                sets.push((p128.clone(), kind, depth_shapes(kind, 128, &pow2(8, 64)), 0));
+                // CcDc packs the inner dimension diagonally: 2*min(d, N/2) - 1 products per fill
+                if kind == Bolt::CcDc {
+                    sets.push((p128.clone(), kind, vec![(1, 65, 1)], 3));
+                    sets.push((p128.clone(), kind, vec![(1, 63, 1), (1, 64, 1), (1, 65, 3), (3, 65, 1), (1, 129, 1), (1, 129, 3), (3, 129, 1)], 0));
+                } else {
+                    sets.push((p128.clone(), kind, dfam(&[63, 64, 65, 129], true), 3));
+                }
+                sets.push((p128, kind, vec![(65, 2, 2), (2, 65, 2), (2, 2, 65)], 0));
+                sets.push((ParamSpec::new(Scheme::BGV, 256, q60(256), 65537), kind, dfam(&[65, 129], false), 0));
+            }
+            let p1k = ParamSpec::new(Scheme::BFV, 1024, q4(1024), 65537);
+            sets.push((p1k.clone(), Bolt::Cp, vec![(1, 65, 1), (2, 513, 1), (4, 257, 3)], 0));
+            sets.push((p1k.clone(), Bolt::CcCr, vec![(1, 65, 1), (1, 1025, 1)], 3));
+            sets.push((p1k.clone(), Bolt::CcCr, vec![(2, 513, 1), (3, 129, 2)], 0));
+            sets.push((p1k.clone(), Bolt::CcDc, vec![(1, 1, 1025)], 3));
+            sets.push((p1k, Bolt::CcDc, vec![(2, 2, 513), (3, 4, 257)], 0));
+            let p4k = ParamSpec::new(Scheme::BFV, 4096, q4(4096), 65537);
+            sets.push((p4k.clone(), Bolt::Cp, vec![(64, 65, 3)], 0));
+            sets.push((p4k.clone(), Bolt::CcCr, vec![(1, 65, 1), (1, 4097, 1)], 0));
+            sets.push((p4k, Bolt::CcDc, vec![(1, 1, 4097)], 0));
+        } else {
+            for kind in kinds {
+                let p128 = ParamSpec::new(Scheme::BFV, 128, q60(128), 257);
+                sets.push((p128.clone(), kind, depth_shapes(kind, 128, &pow2(1, 8)), 1));
+                sets.push((p128.clone(), kind, depth_shapes(kind, 128, &pow2(16, 64)), 3));
+                sets.push((p128.clone(), kind, dfam(&BIG_D, true), 3));
+                sets.push((p128, kind, vec![(65, 2, 2), (2, 65, 2), (2, 2, 65), (129, 3, 1), (1, 3, 129)], 3));
+                let p256 = ParamSpec::new(Scheme::BGV, 256, q60(256), 65537);
+                sets.push((p256.clone(), kind, depth_shapes(kind, 256, &pow2(1, 128)), 0));
+                sets.push((p256.clone(), kind, dfam(&[65, 129, 257], true), 3));
+                sets.push((p256, kind, vec![(129, 2, 2), (2, 129, 2), (2, 2, 129)], 0));
+                let p1k = ParamSpec::new(Scheme::BFV, 1024, q4(1024), 65537);
+                sets.push((p1k.clone(), kind, depth_shapes(kind, 1024, &pow2(1, 512)), 0));
+                // CcDc packs the inner dimension diagonally: 2*min(d, N/2) - 1 products per fill
+                if kind == Bolt::CcDc {
+                    sets.push((p1k.clone(), kind, dfam(&[65, 129], false), 3));
+                    sets.push((p1k.clone(), kind, dfam(&[300, 1025], false), 0));
+                } else {
+                    sets.push((p1k.clone(), kind, dfam(&[65, 129, 300, 1025], false), 3));
+                }
+                sets.push((p1k, kind, vec![(513, 2, 1), (1, 2, 513), (2, 513, 1)], 0));
+            }
+            let p4k = ParamSpec::new(Scheme::BFV, 4096, q4(4096), 65537);
+            for kind in kinds {
+                // Cp with gap g multiplies N/g plaintexts per pair of operand / result ciphertexts: gaps 1, 2 stay at N <= 1024
+                sets.push((p4k.clone(), kind, depth_shapes(kind, 4096, &pow2(if kind == Bolt::Cp { 4 } else { 1 }, 16)), 0));
+            }
+            sets.push((p4k.clone(), Bolt::Cp, vec![(16, 257, 16), (1, 256, 16), (2, 300, 10), (8, 100, 8), (16, 200, 16), (1, 768, 64), (64, 65, 3)], 0));
+            sets.push((p4k.clone(), Bolt::CcCr, vec![(1, 65, 1), (1, 4097, 1), (2, 300, 2), (8, 100, 8), (16, 257, 16), (64, 65, 3)], 0));
+            sets.push((p4k, Bolt::CcDc, vec![(1, 1, 4097), (2, 2, 2049), (8, 8, 100), (16, 16, 257), (3, 64, 65), (8, 100, 8)], 0));
+            let p8k = ParamSpec::new(Scheme::BFV, 8192, q4(8192), 65537);
+            sets.push((p8k.clone(), Bolt::Cp, vec![(64, 129, 3)], 0));
+            sets.push((p8k.clone(), Bolt::CcCr, vec![(1, 65, 1), (1, 8193, 1), (8, 100, 8)], 0));
+            sets.push((p8k, Bolt::CcDc, vec![(1, 1, 8193), (8, 8, 100)], 0));
+        }
+        let bound = sets.iter().map(|(s, k, sh, side)| format!("{} {k:?} (m,r,n) in {{{}}} ({})", s.label(), shapes_label(sh), if *side == 0 { "dense and all-(t-1) fills" } else { "+ one-sided units at the coarse boundary indices" })).collect::<Vec<_>>().join("; ");
+        let mut cases = vec![];
+        for (spec, kind, shapes, side) in &sets {
+            for &(m, r, n) in shapes {
+                for transport in [Transport::Direct, Transport::Wire] {
+                    let side = if transport == Transport::Wire { 0 } else { *side };
+                    cases.push(Big { c: BCase { spec: spec.clone(), kind: *kind, m, r, n, transport, units: false }, side });
+                }
+            }
+        }
+        v.push(wrap(
+            E1::new(
+                "big_bolt",
+                &format!("{bound} x transport(2); fills: dense+bias, all-(t-1)+bias, one-sided units (unit input x dense weights, dense inputs x unit weight) at the coarse boundary indices (0, p-1, p, p+1 for p = 64..8192, len-1 per axis) with the Direct transport where stated; 3 encode/decode_outputs inverses per case"),
+                cases.into_iter(),
+                move |c: &Big<BCase>| check_big_bolt(c, seed),
+            )
+            .batch(1)
+            .deadline(Duration::from_secs(900)),
+        ));
+    }
+    // ---- big_conv2d ----
+    {
+        let cs = |b, ci, co, h, w, kh, kw| ConvShape { b, ci, co, h, w, kh, kw };
+        // every axis long in turn: height, width, input channels, output channels, batch
+        let fam = |ds: &[usize], full: bool| -> Vec<ConvShape> {
+            let mut sh = vec![];
+            for &d in ds {
+                sh.extend([cs(1, 1, 1, d, 2, 2, 2), cs(1, 1, 1, 2, d, 2, 2), cs(1, d, 1, 1, 1, 1, 1), cs(1, 1, d, 1, 1, 1, 1), cs(d, 1, 1, 1, 1, 1, 1)]);
+                if full {
+                    sh.extend([cs(1, 1, 1, d, 3, 3, 1), cs(1, 1, 1, 3, d, 2, 3), cs(1, d, 2, 3, 3, 2, 2), cs(2, 2, d, 2, 3, 2, 2), cs(d, 1, 2, 3, 2, 2, 1)]);
+                }
+            }
+            sh
+        };
+        let real = vec![cs(1, 3, 5, 16, 17, 3, 5), cs(4, 3, 16, 32, 32, 5, 5), cs(2, 64, 65, 9, 9, 3, 3), cs(1, 1, 1, 70, 70, 5, 3)];
+        // (spec, shapes, every one-sided unit when |x| + |w| <= cap)
+        let mut specs: Vec<(ParamSpec, Vec<ConvShape>, usize)> = vec![];
+        if !thorough {
+            specs.push((ParamSpec::new(Scheme::BFV, 128, q60(128), 1 << 20), fam(&[63, 64, 65, 127, 129, 300], true), 140));
+            specs.push((ParamSpec::new(Scheme::BGV, 256, q60(256), 65537), fam(&[65, 128, 129, 257], false), 0));
+            let mut s1k = fam(&[65, 513, 1025], false);
+            s1k.extend(real[..2].iter().cloned());
+            specs.push((ParamSpec::new(Scheme::BFV, 1024, q60(1024), 1 << 20), s1k, 0));
+            // dense and all-(t-1) fills only (usize::MAX: no unit fills)
+            let mut s4k = fam(&[4097], false);
+            s4k.push(real[1]);
+            specs.push((ParamSpec::new(Scheme::BFV, 4096, q60(4096), 1 << 20), s4k, usize::MAX));
+        } else {
+            specs.push((ParamSpec::new(Scheme::BFV, 128, q60(128), 1 << 20), fam(&BIG_D, true), 2000));
+            specs.push((ParamSpec::new(Scheme::BGV, 128, q60(128), 65537), fam(&BIG_D, false), 700));
+            specs.push((ParamSpec::new(Scheme::BFV, 256, q60(256), 65537), fam(&[63, 64, 65, 127, 128, 129, 200, 255, 256, 257, 300, 513], true), 2000));
+            let mut s1k = fam(&[63, 64, 65, 127, 128, 129, 255, 256, 257, 511, 512, 513, 1023, 1024, 1025], true);
+            s1k.extend(real.iter().cloned());
+            specs.push((ParamSpec::new(Scheme::BFV, 1024, q60(1024), 1 << 20), s1k, 700));
+            let mut s4k = fam(&[65, 129, 257, 513, 1025, 2049, 4097], false);
+            s4k.extend(real.iter().cloned());
+            specs.push((ParamSpec::new(Scheme::BFV, 4096, q60(4096), 1 << 20), s4k, 0));
+            let mut s8k = fam(&[4097, 8193], false);
+            s8k.extend(real[1..3].iter().cloned());
+            specs.push((ParamSpec::new(Scheme::BFV, 8192, q60(8192), 1 << 20), s8k, 0));
+        }
+        let bound = specs
+            .iter()
+            .map(|(s, sh, cap)| {
+                let l: Vec<String> = sh.iter().map(|s| format!("{}.{}.{}.{}x{}.{}x{}", s.b, s.ci, s.co, s.h, s.w, s.kh, s.kw)).collect();
+                format!("{} (batch.c_in.c_out.HxW.k_hxk_w) in {{{}}} ({})", s.label(), l.join(" "), if *cap == usize::MAX { "no unit fills".to_string() } else { format!("every one-sided unit when |x| + |w| <= {cap}, else the boundary ones when there are <= {nb_cap}, else none") })
+            })
+            .collect::<Vec<_>>()
+            .join("; ");
+        let mut cases = vec![];
+        for (spec, shapes, cap) in &specs {
+            for s in shapes {
+                for (obj, dir) in [(Obj::CipherPlain, Dir::Forward), (Obj::PlainCipher, Dir::Reverse), (Obj::CpAddPc, Dir::Forward), (Obj::CpAddPc, Dir::Reverse)] {
+                    for transport in [Transport::Direct, Transport::Wire] {
+                        let nb = side_indices(&[s.b, s.ci, s.h, s.w], 1).len() + side_indices(&[s.co, s.ci, s.kh, s.kw], 1).len();
+                        let units = if transport == Transport::Wire || *cap == usize::MAX { 0 } else if s.in_len() + s.w_len() <= *cap { 1 } else if nb <= nb_cap { 3 } else { 0 };
+                        cases.push(VCase { spec: spec.clone(), s: *s, obj, dir, transport, units });
+                    }
+                }
+            }
+        }
+        v.push(wrap(
+            E1::new(
+                "big_conv2d",
+                &format!("{bound} x (objective, direction) in {{(CipherPlain, conv2d), (PlainCipher, conv2d_reverse), (CpAddPc, both)}} x transport(2); fills: dense+bias, all-(t-1)+bias, with the Direct transport every one-sided unit at all indices / at the boundary indices of every axis; 4 encode_outputs inverses per (shape, objective)"),
+                cases.into_iter(),
+                move |c: &VCase| check_big_conv(c, seed),
+            )
+            .batch(2)
+            .deadline(Duration::from_secs(600)),
+        ));
+    }
+    // ---- big_ckks ----
+    {
+        let cs = |b, ci, co, h, w, kh, kw| ConvShape { b, ci, co, h, w, kh, kw };
+        let qk = |n: usize| chain(n, &[60, 60, 55, 60]);
+        let mfam = |ds: &[usize]| -> Vec<(usize, usize, usize)> { ds.iter().flat_map(|&d| [(1, d, 1), (1, 1, d), (d, 1, 1), (3, d, 2)]).collect() };
+        let cfam = |ds: &[usize]| -> Vec<ConvShape> { ds.iter().flat_map(|&d| [cs(1, 1, 1, d, 2, 2, 2), cs(1, 1, 1, 2, d, 2, 2), cs(1, d, 1, 1, 1, 1, 1), cs(1, 1, d, 1, 1, 1, 1), cs(d, 1, 1, 1, 1, 1, 1)]).collect() };
+        let mut specs: Vec<(ParamSpec, Vec<(usize, usize, usize)>, Vec<ConvShape>)> = vec![];
+        if !thorough {
+            specs.push((ParamSpec::new(Scheme::CKKS, 128, qk(128), 0), mfam(&[63, 64, 65, 129, 300]), cfam(&[64, 65, 129])));
+            specs.push((ParamSpec::new(Scheme::CKKS, 1024, qk(1024), 0), mfam(&[65, 1025]), cfam(&[65, 1025])));
+        } else {
+            specs.push((ParamSpec::new(Scheme::CKKS, 128, qk(128), 0), mfam(&BIG_D), cfam(&BIG_D)));
+            specs.push((ParamSpec::new(Scheme::CKKS, 256, qk(256), 0), mfam(&[65, 129, 255, 256, 257, 513]), cfam(&[65, 129, 257, 513])));
+            specs.push((ParamSpec::new(Scheme::CKKS, 1024, qk(1024), 0), mfam(&[63, 64, 65, 127, 128, 129, 257, 513, 1023, 1024, 1025]), cfam(&[65, 129, 257, 513, 1025])));
+            let mut m4 = mfam(&[65, 129, 1025, 4097]);
+            m4.extend([(1, 256, 16), (2, 300, 10), (16, 200, 16), (1, 768, 64)]);
+            let mut c4 = cfam(&[65, 1025, 4097]);
+            c4.push(cs(4, 3, 16, 32, 32, 5, 5));
+            specs.push((ParamSpec::new(Scheme::CKKS, 4096, qk(4096), 0), m4, c4));
+        }
+        let bound = specs
+            .iter()
+            .map(|(s, ms, cv)| {
+                let l: Vec<String> = cv.iter().map(|s| format!("{}.{}.{}.{}x{}.{}x{}", s.b, s.ci, s.co, s.h, s.w, s.kh, s.kw)).collect();
+                format!("{} scale 2^55: matmul (m,r,n) in {{{}}} x pack(2), conv shapes {{{}}}", s.label(), shapes_label(ms), l.join(" "))
+            })
+            .collect::<Vec<_>>()
+            .join("; ");
+        let mut cases = vec![];
+        for (spec, ms, cv) in &specs {
+            for &(m, r, n) in ms {
+                for (obj, dir) in [(Obj::CipherPlain, Dir::Forward), (Obj::PlainCipher, Dir::Reverse), (Obj::CpAddPc, Dir::Forward)] {
+                    for pack in [false, true] {
+                        for transport in [Transport::Direct, Transport::Wire] {
+                            cases.push(KCase { spec: spec.clone(), log_scale: 55, shape: KShape::Matmul { m, r, n, pack }, obj, dir, transport });
+                        }
+                    }
+                }
+            }
+            for s in cv {
+                for (obj, dir) in [(Obj::CipherPlain, Dir::Forward), (Obj::PlainCipher, Dir::Reverse), (Obj::CpAddPc, Dir::Forward)] {
+                    for transport in [Transport::Direct, Transport::Wire] {
+                        cases.push(KCase { spec: spec.clone(), log_scale: 55, shape: KShape::Conv(*s), obj, dir, transport });
+                    }
+                }
+            }
+        }
+        v.push(wrap(
+            E1::new(
+                "big_ckks",
+                &format!("{bound} x (objective, direction) in {{(CipherPlain, forward), (PlainCipher, reverse), (CpAddPc, forward)}} x transport(2); pipeline of the unit tests (multiply, pack, rescale, bias, transport); fills dense / +-4 / first unit / last unit on either side / comb of the boundary indices on either side; error within the a-priori bound"),
+                cases.into_iter(),
+                move |c: &KCase| check_big_ckks(c, seed),
+            )
+            .batch(2)
+            .deadline(Duration::from_secs(600)),
+        ));
+    }
+    // ---- big_rnsp ----
+    {
+        let mut cases = vec![];
+        let mut bound = vec![];
+        // many plain moduli at a tiny degree (boundary value set, partner maps)
+        let ks: &[usize] = if thorough { &[4, 5, 7, 8, 9, 15, 16, 17, 18] } else { &[4, 8, 9, 16, 17] };
+        for &k in ks {
+            for (scheme, n, batch) in [(Scheme::BFV, 8usize, true), (Scheme::BGV, 4, false)] {
+                if !thorough && scheme == Scheme::BGV && k != 9 && k != 17 {
+                    continue;
+                }
+                let t = primes_1_mod(2 * n as u64, 30, k);
+                let partners: &[u8] = if thorough { &[1, 2, 3, 4, 5] } else { &[1, 3] };
+                bound.push(format!("{scheme:?}/N{n}/{k} plain moduli of 30 bits/{}/boundary value set x {} partner maps", if batch { "batch" } else { "poly" }, partners.len()));
+                for op in R_OPS {
+                    for &partner in partners {
+                        cases.push(RXCase::Moduli(RCase { scheme, n, q: chain(n, &[50, 50, 50]), t: t.clone(), batch, op: op.to_string(), partner, all: false, part: 0, parts: 1 }));
+                    }
+                }
+            }
+        }
+        // large degrees
+        let mut sets: Vec<(Scheme, usize, usize, bool)> = vec![(Scheme::BFV, 128, 2, true), (Scheme::BFV, 128, 3, false), (Scheme::BGV, 256, 2, true), (Scheme::BFV, 1024, 2, true)];
+        if thorough {
+            sets.extend([(Scheme::BGV, 128, 2, false), (Scheme::BFV, 256, 3, false), (Scheme::BFV, 512, 3, true), (Scheme::BGV, 1024, 3, true), (Scheme::BFV, 4096, 2, true), (Scheme::BFV, 8192, 2, true)]);
+        }
+        for (scheme, n, k, batch) in sets {
+            let t = if batch { primes_1_mod(2 * n as u64, 30, k) } else { vec![1 << 20, 1_000_003, 999_999_937][..k].to_vec() };
+            bound.push(format!("{scheme:?}/N{n}/t{t:?}/{}/dense vector pair, its truncations to every boundary length, every boundary unit slot on either side", if batch { "batch" } else { "poly" }));
+            for op in R_OPS {
+                cases.push(RXCase::Degree(RBCase { scheme, n, q: q60(n), t: t.clone(), batch, op: op.to_string() }));
+            }
+        }
+        v.push(wrap(
+            E1::new(
+                "big_rnsp",
+                &format!("{} x ops {:?} (new / inplace / destination forms in rotation, pk and symmetric encryption); boundary lengths / slots: 0,1,2,p-1,p,p+1 for p = 8..8192,N-2,N-1 (polynomial products: up to 65)", bound.join("; "), R_OPS),
+                cases.into_iter(),
+                move |c: &RXCase| check_big_rnsp(c, seed),
+            )
+            .batch(1)
+            .deadline(Duration::from_secs(600)),
+        ));
+    }
 }
